@@ -491,11 +491,28 @@ fn run_shape<const D: usize>(dims: [usize; D], cx: &mut Cx) {
         for k in 0..D {
             let bad = [dims[k], dims[k] + 1, usize::MAX / 2, usize::MAX];
             // all combinations of valid other coordinates = all valid indices with idx[k] == 0
-            for base in idxs.iter().filter(|i| i[k] == 0) {
+            let bases: Vec<&[usize; D]> = idxs.iter().filter(|i| i[k] == 0).collect();
+            for (bi, base) in bases.iter().enumerate() {
                 for b in bad {
-                    let mut idx = *base;
+                    let mut idx = **base;
                     idx[k] = b;
                     probes.push((idx, format!("dim{}of{}", k, D), true));
+                }
+                // values whose product with a power-of-two stride wraps around to a valid offset: j + 2^e
+                let all_e = bi == 0 || bi + 1 == bases.len() || bi == bases.len() / 2;
+                for e in 1..usize::BITS {
+                    if !(all_e || e >= usize::BITS - 3) {
+                        continue;
+                    }
+                    for j in [0, 1, dims[k] - 1] {
+                        let b = (1usize << e) + j;
+                        if b < dims[k] {
+                            continue;
+                        }
+                        let mut idx = **base;
+                        idx[k] = b;
+                        probes.push((idx, format!("dim{}of{}:2^e+j", k, D), true));
+                    }
                 }
             }
         }
@@ -670,6 +687,7 @@ fn run_shape<const D: usize>(dims: [usize; D], cx: &mut Cx) {
         }
         // equal data under every other shape of the same rank with the same product
         let mut reported = false;
+        let mut reported_cf = false;
         let mut others = 0u64;
         let mut other = [1usize; D];
         'shapes: loop {
@@ -678,6 +696,23 @@ fn run_shape<const D: usize>(dims: [usize; D], cx: &mut Cx) {
                 let b = call!(cx, "from_vec", Tensor::from_vec(other, data.clone()));
                 let (e1, n1) = (call!(cx, "eq", a == b), call!(cx, "ne", a != b));
                 cx.rep.inc("eq_pairs_same_data_different_shape");
+                // Clone::clone_from into a tensor of another shape with the same number of elements
+                let mut d = call!(cx, "from_vec", Tensor::from_vec(other, vec![-7i64; len]));
+                call!(cx, "clone_from", d.clone_from(&a));
+                cx.rep.inc("clone_from_checks");
+                let ok = call!(cx, "eq", d == a) && *call!(cx, "dims", d.dims()) == dims && call!(cx, "iter", d.iter().eq(data.iter()))
+                    && !panics(|| drop(d[idxs[len - 1]]));
+                if !ok && !reported_cf {
+                    reported_cf = true;
+                    cx.viol(
+                        "clone_from",
+                        Json::obj()
+                            .set("what", "after dst.clone_from(&src) dst is not a copy of src (shape, elements or indexing differ)")
+                            .set("shape_src", dims.to_vec())
+                            .set("shape_dst_before", other.to_vec())
+                            .set("dims_after", d.dims().to_vec()),
+                    );
+                }
                 if (e1 || !n1) && !reported {
                     reported = true;
                     cx.viol(
@@ -733,6 +768,22 @@ fn run_shape<const D: usize>(dims: [usize; D], cx: &mut Cx) {
         let after: Vec<i64> = call!(cx, "iter", c.iter().cloned().collect());
         if after != snapshot {
             cx.viol("clone", Json::obj().set("what", "writing to the original changed the clone").set("clone_before", snapshot).set("clone_after", after));
+        }
+        // clone_from from / into a tensor with a different number of elements
+        {
+            let small = call!(cx, "new", Tensor::<i64, D>::new([1usize; D], 9));
+            let mut d = small.clone();
+            call!(cx, "clone_from", d.clone_from(&a));
+            cx.rep.inc("clone_from_checks");
+            if !(call!(cx, "eq", d == a) && *d.dims() == *a.dims() && d.iter().eq(a.iter())) {
+                cx.viol("clone_from", Json::obj().set("what", "after dst.clone_from(&src) (dst smaller) dst is not a copy of src").set("dims_after", d.dims().to_vec()));
+            }
+            let mut e = a.clone();
+            call!(cx, "clone_from", e.clone_from(&small));
+            cx.rep.inc("clone_from_checks");
+            if !(call!(cx, "eq", e == small) && *e.dims() == [1usize; D] && e.iter().count() == 1) {
+                cx.viol("clone_from", Json::obj().set("what", "after dst.clone_from(&src) (dst larger) dst is not a copy of src").set("dims_after", e.dims().to_vec()));
+            }
         }
         // iter_mut visits the storage in row-major order
         let mut t = call!(cx, "new", Tensor::<i64, D>::new(dims, 0));
